@@ -975,5 +975,6 @@ func main() {
 	runHintedQR()
 	runHistory()
 	runSharedHints()
+	runZeroValueWriters()
 	chk.Finish()
 }
